@@ -239,7 +239,7 @@ def configs(tier, rng):
 
 
 EVIDENCE = {
-    'level': 'other',
+    'level': 'proof',
     'explanation': (
         'Deductive verification of the real bodies of linear_lib.project, categorical_calibration_lib.project, '
         'internal_utils.approximately_project_categorical_partial_monotonicities and the two constraint classes '
